@@ -301,7 +301,8 @@ def generate(ctx):
             fault = None
         plans.append({"id": i, "variant": variant, "k": k, "graph": kind, "gseed": rng.next(), "perms": [list(p) for p in perms], "fault": fault,
                       "funcs_only": [x for x in range(k) if rng.chance(1, 10) and kind != "dense-cycle"], "enum_only": [x for x in range(k) if rng.chance(1, 10) and kind != "dense-cycle"],
-                      "consts_only": [x for x in range(k) if rng.chance(1, 12) and kind != "dense-cycle"], "mode": rng.choice(["native"] * 5 + ["python", "c", "default"]), "extra": rng.choice([[], [], ["-python"], ["-track-interpreter"], ["-import", "other.mod"], ["-init", "extra_init"]])})
+                      "consts_only": [x for x in range(k) if rng.chance(1, 12) and kind != "dense-cycle"], "mode": rng.choice(["native"] * 5 + ["python", "c", "default"]), "extra": rng.choice([[], [], ["-python"], ["-track-interpreter"], ["-import", "other.mod"], ["-init", "extra_init"]]),
+                      "foreign": (1 + rng.below(7)) if (variant == "synth" and kind != "dense-cycle" and rng.chance(1, 5)) else 0})
     # stratum of plain scenarios: every graph family in native mode without faults or member-less libraries, so that the
     # ordering clauses are exercised by each family in every batch however the dimensions above happen to combine
     base = len(plans)
@@ -469,6 +470,31 @@ def execute(plan):
         for u, db in enumerate(dbs):
             with open(os.path.join(root, "db", names[u] + ".in"), "wb") as f:
                 f.write(F.serialise(db))
+    foreign = None
+    if plan.get("foreign") and plan["variant"] == "synth" and not harness_faults:
+        # a database of ANOTHER module on the command line whose class is a base of one of this module's classes: it takes
+        # no part in this module's initialisation (nothing to reference, nothing to order, no cycle to report)
+        hosts = [u for u, db in enumerate(dbs) if any(t["flags"] & F.TF_GLOBAL and t["flags"] & 0x800 for t in db["types"].values())]
+        if hosts:
+            u = hosts[plan["foreign"] % len(hosts)]
+            db = dbs[u]
+            nxt = max([0] + [i for sec in F.SECTIONS for i in db[sec]]) + 1
+            proto = next(t for t in db["types"].values() if t["flags"] & F.TF_GLOBAL and t["flags"] & 0x800)
+            stub = dict(proto, name=b"Foreign_Base", scoped_name=b"Foreign_Base", true_name=b"Foreign_Base", flags=0x800, derivations=[], constructors=[], methods=[], destructor=0)
+            der = dict(proto, name=("%s_DF" % names[u]).encode(), scoped_name=("%s_DF" % names[u]).encode(), true_name=("%s_DF" % names[u]).encode(),
+                       derivations=[{"flags": 0, "base": nxt, "upcast": 0, "downcast": 0}], constructors=[], methods=[], destructor=0)
+            db["types"][nxt] = stub
+            db["types"][nxt + 1] = der
+            with open(os.path.join(root, "db", names[u] + ".in"), "wb") as f:
+                f.write(F.serialise(db))
+            fdb = {"file_identifier": 77, "major": 3, "minor": 3, "library_name": b"libzzforeign", "library_hash_name": b"zzfo", "module_name": b"othermod",
+                   "functions": {}, "wrappers": {}, "manifests": {}, "elements": {}, "make_seqs": {},
+                   "types": {1: dict(proto, name=b"Foreign_Base", scoped_name=b"Foreign_Base", true_name=b"Foreign_Base", flags=0x1 | 0x800 | F.TF_FULLY_DEFINED,
+                                     derivations=[], constructors=[], methods=[], destructor=0)}}
+            with open(os.path.join(root, "db", "libzzforeign.in"), "wb") as f:
+                f.write(F.serialise(fdb))
+            dbs = dbs + [fdb]
+            foreign = "db/libzzforeign.in"
     stats = {"module_runs": 0, "cyclic": 0, "fault": plan["fault"]["kind"] if plan["fault"] else "none", "orders": 0, "edges": 0, "libs": k}
     digests = []
     if not harness_faults:
@@ -520,8 +546,10 @@ def execute(plan):
                     f.write("// stale module file of an earlier run\nDtool_libstale_RegisterTypes();\n")
             mode = plan.get("mode", "native")
             flags = {"native": ["-python-native"] + plan["extra"], "python": ["-python"], "c": ["-c"], "default": []}[mode]
-            argv = [build.tool("rel", "interrogate_module"), "-oc", out_rel, "-module", MODULE, "-library", MODULE] + flags + \
-                   ["db/%s.in" % names[u] for u in perm]
+            dbargs = ["db/%s.in" % names[u] for u in perm]
+            if foreign:
+                dbargs.insert(sum(perm) % (len(dbargs) + 1), foreign)
+            argv = [build.tool("rel", "interrogate_module"), "-oc", out_rel, "-module", MODULE, "-library", MODULE] + flags + dbargs
             r = runner.run_tool(argv, cwd=root, env=env, wall=20)
             stats["module_runs"] += 1
             stats["orders"] += 1
@@ -571,6 +599,9 @@ def execute(plan):
                     violations.append({"property": "C16", "class": "order", "key": {"kind": "base-after-derived", "cyclic": cyclic},
                                        "msg": "%s depends on %s (not on a cycle) but is initialised first: order %s; model edges %s; %s" % (a, b, seq, sorted(medges), where)})
                     break
+            if not cyclic and b"Circular dependency" in r.stderr:
+                violations.append({"property": "C16", "class": "cycle-misreported", "key": {"kind": "cycle-reported-for-acyclic-graph"},
+                                   "msg": "a circular dependency was reported although the dependency graph of the module's libraries is acyclic: %s" % where})
             if cyclic and b"Circular dependency" not in r.stderr:
                 violations.append({"property": "C16", "class": "cycle-unreported", "key": {"kind": "cycle-unreported"},
                                    "msg": "the dependency graph has a cycle but no diagnostic was printed: %s" % where})
